@@ -281,7 +281,7 @@ Lemma dependent_products_total w top fuel :
 Proof.
   intros Hf. unfold dependent_products, dependent_products_with.
   destruct (walk_top_spec w [] top fuel Hf) as [out1 [st1 [E1 _]]]. rewrite E1. cbn [negb]. cbv zeta.
-  destruct (walk_top_spec w (map (fun x => (nname (enode x), nver (enode x))) (drop_top top out1)) top fuel Hf)
+  destruct (walk_top_spec w (pins_for true top (drop_top top out1)) top fuel Hf)
     as [out2 [st2 [E2 _]]].
   rewrite E2.
   destruct (topo_layers_total false (pd st2) (walk_top_pd_nodup _ _ _ _ _ _ E2) (or_introl eq_refl)) as [NL EL].
@@ -297,7 +297,7 @@ Qed.
 
 Lemma topo_graph_keys_nodup fuel w top g : topo_graph fuel w top = Ok g -> NoDup (gkeys g).
 Proof.
-  unfold topo_graph. destruct (walk_top fuel w [] top) as [[l st]|]; [|discriminate].
+  unfold topo_graph, topo_graph_with. destruct (walk_top fuel w [] top) as [[l st]|]; [|discriminate].
   destruct (walk_top fuel w _ top) as [[l2 st2]|] eqn:E2; [|discriminate].
   intros Q. inversion Q. apply prepare_keys_nodup. eapply walk_top_pd_nodup; eauto.
 Qed.
